@@ -19,15 +19,17 @@ CLAIMED = {
         ref="DESIGN.md 5/C20"),
     "C01": dict(
         text="Coq: L1 model of the whole schema pipeline (schema.go, type.go, schema_props.go, object/slice validators, values, formats) "
-             "and L0 draft-4 function; proved: the agreement theorem L1 verdict = L0 verdict on the fragment 'clean' (type, enum, "
-             "numeric, string keywords, items / tuple / additionalItems, min/maxItems, properties / required / additionalProperties / "
-             "min/maxProperties, allOf, anyOf, not, at every depth; JSON data without null) for every oracle, environment and numeric "
-             "implementation with a total order - by induction on the nesting depth through every keyword group; the one-shot wrapper = "
+             "and L0 draft-4 function; proved: the agreement theorem L1 verdict = L0 verdict on a decidable fragment (type, enum, numeric, "
+             "string keywords, items / tuple / additionalItems, min/maxItems, properties / required / additionalProperties / min/maxProperties, "
+             "dependencies, allOf, anyOf, not, chains of references, at every depth; JSON data, with null admitted when the schema has no "
+             "allOf/anyOf/not) for every oracle, environment and numeric implementation whose order is total on the numbers involved - by "
+             "induction on the nesting depth through every keyword group - and instantiated for the Flocq binary64 instance the tie runs; the "
+             "decision procedure is proved sound and evaluated on every case (56% of the quick run lies inside); the one-shot wrapper = "
              "validator verdict; validity of merged results; one refutation witness per recorded finding class (the unrestricted statement "
-             "is false of the faithful model). Outside the proved fragment (references, formats, patternProperties, dependencies, oneOf, "
-             "uniqueItems, null) agreement is decided per case by the L0 function evaluated in exact arithmetic (partial). Tie: L1 vs Go on verdicts (and all richer observables), and "
+             "is false of the faithful model). Outside the proved fragment (formats, patternProperties, oneOf, uniqueItems, recursive "
+             "definitions, null under composition) agreement is decided per case by the L0 function evaluated in exact arithmetic (partial). Tie: L1 vs Go on verdicts (and all richer observables), and "
              "Go vs L0 in exact decimal arithmetic on every case, classified against the recorded finding classes.",
-        note=TB + "Axioms: the refutation witnesses compute with Flocq binary64 and inherit the stdlib real-number axioms, classic and "
+        note=TB + "Axioms: the agreement theorems are axiom-free; their binary64 instance and the refutation witnesses use Flocq and inherit the stdlib real-number axioms, classic and "
              "functional extensionality (named in DESIGN.md 7). go-openapi/spec's ExpandSchema and the format registry are oracles.",
         tech="Rocq proof (agreement theorem on the clean fragment, wrapper, merge laws, refutation witnesses) + L1/L0 differential correspondence",
         ref="DESIGN.md 5/C01"),
